@@ -663,6 +663,7 @@ class InterpCore:
                 idx = self.resolve(idx)
             self.emit("write", st, how="setitem", target=recv, index=idx, value=v, aug=aug)
             if isinstance(recv, DictV):
+                self.hash_partial(idx, st, "dict store")       # type: ignore[attr-defined]
                 recv.store(idx, v)
             elif isinstance(recv, ListV) and isinstance(idx, Const) and isinstance(idx.value, int) \
                     and recv.concrete() and -len(recv.items) <= idx.value < len(recv.items):
